@@ -26,13 +26,13 @@ FORMS_B = [
 FORMS_C = [('', [['c']]), (';c>cc', [['c', 'd']])]
 
 
-def mk_scenario(forms, npub, max_polls, max_none, drops=0, restart=False, sym_state=False, planted=None, timeout_ms=None):
+def mk_scenario(forms, npub, max_polls, max_none, drops=0, restart=False, sym_state=False, planted=None, timeout_ms=None, ctrl=False):
     forms = [[('', suf, tl) for suf, tl in fl] for fl in forms]
     def check(ctx, data, st):
         if planted == 'oracle': ctx.e.fail('planted', 'twin oracle', {'kind': 'planted'})
         check_one_id_and_complete(ctx, data, st)
     def scenario(e):
-        recv_stream(e, forms, npub, max_polls, max_none, check, drops=drops, restart=restart, sym_state=sym_state, timeout_ms=timeout_ms)
+        recv_stream(e, forms, npub, max_polls, max_none, check, drops=drops, restart=restart, sym_state=sym_state, timeout_ms=timeout_ms, ctrl=ctrl)
     return scenario
 
 
@@ -70,6 +70,11 @@ def harnesses(tier):
         hs.append(Harness('c01.recv_stream.3src', mk_scenario([FORMS_A[:1], FORMS_B[1:2], FORMS_C], 2, 12, 0),
                           bounds={'sources': 3, 'forms': '1 x 1 x 2', 'publishes_per_source': 2, 'poll_decisions': 12},
                           functions=fn, stubs=stubs, assumptions=assume, budget_s=1800))
+    q = tier == 'quick'
+    hs.append(Harness('c01.recv_stream.ctrl', mk_scenario([FORMS_A[:1], FORMS_B[:2] if q else FORMS_B[:4]], 2, 12, 0 if q else 1, ctrl=True),
+                      bounds={'sources': 2, 'forms': '1 x 2' if q else '1 x 4', 'publishes_per_source': 2, 'poll_decisions': 12, 'not_yet_answers': 0 if q else 1,
+                              'control message': 'none, or one HELLO / out-of-band / CLOSE message of a publisher at any position of the stream'},
+                      functions=fn, stubs=stubs, assumptions=assume, budget_s=420 if q else 1800))
     from props import s_level as SL
     if tier == 'quick':
         hs.append(SL.H('c01.S.tee_rejoin', SL.c01_rejoin(3, {'pB': (0, 400)}, {'pC': 100}), twin=SL.c01_rejoin(2, {}, {'pB': 0, 'pC': 0}, planted=True),
